@@ -219,6 +219,106 @@ Proof.
   - cbn; discriminate.
 Qed.
 
+(* ---- the mover's own `active` flag: moves and teleports change position / orientation only ------- *)
+Definition act (s : gstate) (i : nat) : option bool := option_map a_active (agent s i).
+
+Lemma act_remove s i p s1 j : remove s i p = Some s1 -> act s1 j = act s j.
+Proof. intro H. unfold act. rewrite (agent_remove _ _ _ _ j H). reflexivity. Qed.
+
+Lemma act_place s i p j : act (snd (place s i p)) j = act s j.
+Proof.
+  destruct (Nat.eq_dec j i) as [E|N].
+  - subst j. unfold place. destruct (agent s i) as [a|] eqn:Ha; [|reflexivity].
+    destruct (query s i p); [|reflexivity]. cbn [snd]. unfold act.
+    rewrite (agent_set_agent_same _ i _ a) by (rewrite agent_set_cells; exact Ha).
+    rewrite Ha. reflexivity.
+  - unfold act. destruct (place_keeps s i p) as (_ & _ & _ & H). rewrite H by exact N. reflexivity.
+Qed.
+
+Lemma move_by_act s i d j :
+  match move_by s i d with MOk _ s' => act s' j = act s j | _ => True end.
+Proof.
+  unfold move_by. destruct (agent s i) as [a|]; [|exact I]. destruct (a_pos a) as [from|]; [|exact I].
+  destruct (inside s _); [|reflexivity]. destruct (cell_eqb _ from); [reflexivity|].
+  destruct (query s i _); [|reflexivity].
+  destruct (remove s i from) as [s1|] eqn:R; [|exact I].
+  rewrite act_place. eapply act_remove; exact R.
+Qed.
+
+Lemma move_cross_act s i ca j :
+  match move_cross s i ca with MOk _ s' => act s' j = act s j | _ => True end.
+Proof. unfold move_cross. destruct (grid_action ca); [apply move_by_act|exact I]. Qed.
+
+Lemma move_drift_act s i ca j :
+  match move_drift s i ca with MOk _ s' => act s' j = act s j | _ => True end.
+Proof.
+  unfold move_drift. destruct (agent s i) as [a0|]; [|exact I].
+  destruct (a_orient a0) as [o0|]; [|exact I].
+  destruct (ca =? 0); [apply move_cross_act|].
+  pose proof (move_cross_act s i ca j) as H1.
+  destruct (move_cross s i ca) as [[|] s1| | |]; try exact I.
+  - destruct (agent s1 i) as [a1|] eqn:Ha; [|exact I]. rewrite <- H1.
+    destruct (Nat.eq_dec j i) as [E|N].
+    + subst j. unfold act. rewrite (agent_set_agent_same _ i _ a1 Ha), Ha. reflexivity.
+    + unfold act. rewrite agent_set_agent_other by exact N. reflexivity.
+  - pose proof (move_cross_act s1 i o0 j) as H2.
+    destruct (move_cross s1 i o0); try exact I. rewrite H2. exact H1.
+Qed.
+
+Lemma tele_act (f : bool) g i from to j :
+  act (tgrid ((if f then tele_fixed else tele_found) g i from to)) j = act g j.
+Proof.
+  destruct f.
+  - unfold tele_fixed. destruct (inside g to); [|reflexivity].
+    destruct (query g i to); [|reflexivity].
+    destruct (remove g i from) as [g1|] eqn:R; [|reflexivity]. cbn [tgrid].
+    rewrite act_place. eapply act_remove; exact R.
+  - unfold tele_found. destruct (remove g i from) as [g1|] eqn:R; [|reflexivity].
+    destruct (inside g1 to); cbn [tgrid]; [rewrite act_place|]; eapply act_remove; exact R.
+Qed.
+
+Lemma teleport_act f g i j : act (tgrid (teleport f g i)) j = act g j.
+Proof.
+  unfold teleport. destruct (agent g i) as [a|]; [|reflexivity].
+  destruct (a_pos a) as [p|]; [|reflexivity].
+  destruct (cell_eqb p tunnel_a); [apply tele_act|].
+  destruct (cell_eqb p tunnel_b); [apply tele_act|reflexivity].
+Qed.
+
+Lemma pac_active_act cf g : pac_active cf g = match act g (pc_pac cf) with Some b => b | None => false end.
+Proof. unfold pac_active, act. destruct (agent g (pc_pac cf)); reflexivity. Qed.
+
+(* clause 2612, the "counted" half: a step that raised nothing and incremented step_count leaves
+   pacman exactly as active as it was before the step (so: pacman started alive => still active) *)
+Theorem pm_step_counted_active f cf st acts :
+  pac_not_baddie cf ->
+  ps_bad st = false -> ps_bad (pm_step_gen f cf st acts) = false ->
+  ps_count (pm_step_gen f cf st acts) = ps_count st + 1 ->
+  pac_active cf (ps_grid (pm_step_gen f cf st acts)) = pac_active cf (ps_grid st).
+Proof.
+  intros NB Hb Hb' Hc.
+  destruct (pm_step_counted_pacman_frame f cf st acts NB Hb Hb' Hc)
+    as (ca & b & g1 & g2 & p & g3 & r3 & _ & HM & HT & _ & _ & HA).
+  rewrite !pac_active_act. unfold act at 1. rewrite HA. fold (act g2 (pc_pac cf)).
+  pose proof (teleport_act f g1 (pc_pac cf) (pc_pac cf)) as H2. rewrite HT in H2. cbn [tgrid] in H2.
+  pose proof (move_drift_act (ps_grid st) (pc_pac cf) ca (pc_pac cf)) as H1. rewrite HM in H1.
+  rewrite H2, H1. reflexivity.
+Qed.
+
+(* clause 2612 in full at the transition level *)
+Theorem pm_step_clause_2612 f cf st acts :
+  pac_not_baddie cf ->
+  ps_bad st = false -> ps_bad (pm_step_gen f cf st acts) = false ->
+  pac_active cf (ps_grid st) = true ->
+  ps_count (pm_step_gen f cf st acts)
+    = if pac_active cf (ps_grid (pm_step_gen f cf st acts)) then ps_count st + 1 else ps_count st.
+Proof.
+  intros NB Hb Hb' Ha.
+  destruct (pm_step_count_spec f cf st acts Hb Hb') as [Hc|[Hc Hd]].
+  - rewrite (pm_step_counted_active f cf st acts NB Hb Hb' Hc), Ha. exact Hc.
+  - rewrite Hd. exact Hc.
+Qed.
+
 (* along the managers' reachability relation of the simulation (steps, getters, resets):
    step_count never decreases between resets -- stated per transition above; here the reset clause for
    the packaged simulation record *)
